@@ -68,6 +68,9 @@ package tcp
 //@
 //@ func (*SNIProxy).ServeTCP
 //@   props C12 C10 C09
+//@   // what is replayed to the upstream before the tunnel starts is exactly what was consumed from the client through the
+//@   // buffered reader (the ClientHello): nothing more (it would be sent twice), nothing less
+//@   at "n, err := out.Write(data)" assert @C09 string(data) == rd[tlsReader]
 //@   requires p != nil && in != nil && !accessAdmitted && connRemote(in) != nil && connLocal(in) != nil && wrapperOf[in] == nil
 //@   assigns *
 //@   ensures [both-directions-awaited] @C09 chanRecvs - old(chanRecvs) == goSpawns - old(goSpawns)
